@@ -284,6 +284,15 @@ impl Model for C06Model {
         ops.push(Op::Entitle { parent: "parent".into(), child: "ca".into(), res: r3("AS1", "", "") });
         ops.push(Op::UpdateId { ca: "ca".into() });
         ops.push(Op::RemovePublisher { publisher: "gc".into() });
+        // suspension moves certificates into a list of their own
+        for o in [
+            Op::Suspend { parent: "parent".into(), child: "ca".into() },
+            Op::Unsuspend { parent: "parent".into(), child: "ca".into() },
+        ] {
+            if !ops.contains(&o) {
+                ops.push(o);
+            }
+        }
         ops
     }
 
@@ -361,6 +370,58 @@ impl Model for C06Model {
             Err(e) => v.push(("machinery".into(), e)),
         }
         let _ = c01::ROA_A;
+        // (4) right after snapshots were taken: an instance restarted now
+        // (it loads the snapshots) and the running one behave alike for one
+        // more step of every operation. (Comparing serialised state alone
+        // cannot see what the snapshot serialisation itself leaves out.)
+        if *op == Op::Snapshots && out.ok && v.is_empty() {
+            let probes: Vec<Op> = self
+                .alphabet(w, path.len(), path)
+                .into_iter()
+                .filter(|o| !matches!(o, Op::Snapshots | Op::Restart))
+                .collect();
+            let project = |w: &World, o: &OpOutcome| -> String {
+                let mut c = crate::fingerprint::canonical(w);
+                if let Some(m) = c.as_object_mut() {
+                    m.remove("queue");
+                }
+                serde_json::json!({"ok": o.ok, "state": c}).to_string()
+            };
+            for probe in probes {
+                let p1 = probe.clone();
+                let a = what_if(w, move |w| {
+                    let o = w.apply(&p1);
+                    vec![("obs".into(), project(w, &o))]
+                });
+                let p2 = probe.clone();
+                let b = what_if(w, move |w| {
+                    if let Err(e) = w.restart() {
+                        return vec![("restart-failed".into(), e.to_string())];
+                    }
+                    let o = w.apply(&p2);
+                    vec![("obs".into(), project(w, &o))]
+                });
+                hdr.counters[12].fetch_add(1, Ordering::Relaxed);
+                match (a, b) {
+                    (Ok(a), Ok(b)) => {
+                        if a != b {
+                            let (x, y) = (a.first().cloned().unwrap_or_default(), b.first().cloned().unwrap_or_default());
+                            let mut d = Vec::new();
+                            if let (Ok(xv), Ok(yv)) = (serde_json::from_str::<Value>(&x.1), serde_json::from_str::<Value>(&y.1)) {
+                                diff_path(&xv, &yv, "", &mut d);
+                            } else {
+                                d.push(format!("{} vs {}", x.1.chars().take(200).collect::<String>(), y.1.chars().take(200).collect::<String>()));
+                            }
+                            v.push((
+                                "restart-diverges".into(),
+                                format!("after the snapshot, operation {} leads the running instance and an instance restarted from the snapshot to different states: {}", serde_json::to_string(&probe).unwrap_or_default(), d.join("; ")),
+                            ));
+                        }
+                    }
+                    (Err(e), _) | (_, Err(e)) => v.push(("machinery".into(), e)),
+                }
+            }
+        }
         v
     }
 }
